@@ -12,10 +12,13 @@ mod script;
 mod session;
 mod trace;
 mod drv_activation;
+mod faults;
 mod drv_transport;
 mod drv_connect;
 mod drv_ntlm;
 mod drv_codec;
+mod drv_setup;
+mod drv_nlafault;
 mod tlspeer;
 mod nlapeer;
 mod nlafault;
@@ -42,8 +45,10 @@ fn main() {
     let trace_path = arg(&args, "--trace").unwrap_or_default();
     let blobs = arg(&args, "--blobs").unwrap_or_default();
     let code = match args[1].as_str() {
-        "activation" => drv_activation::run(&plans, &trace_path, &blobs, seed),
+        "activation" => if let Some(o) = arg(&args, "--dump-regions") { drv_activation::dump_regions(&o) } else { drv_activation::run(&plans, &trace_path, &blobs, seed) },
         "connect" => drv_connect::run(&plans, &trace_path, &blobs),
+        "setup" => drv_setup::run(&args, &plans, &trace_path, &blobs),
+        "nlafault" => drv_nlafault::run(&args, &plans, &trace_path, &blobs),
         "codec" => drv_codec::run(&args),
         "ntlm" => drv_ntlm::run(&plans, &trace_path, &blobs),
         "transport" => drv_transport::run(&args, &plans, &trace_path, &blobs),
